@@ -86,6 +86,8 @@ def run(prop, tier, seed, profile, spec, interest, proof_files, n_quick=2200, n_
     masks, fails = ifam.emit_and_check(prop, charts, cases)
     n_viol = 0
     other = 0
+    unattributed = 0
+    other_kinds = {}
     clauses = {}
     for idx, case in enumerate(cases):
         # every case goes through the property's predicate: the clauses that look only at what the implementation
@@ -99,8 +101,23 @@ def run(prop, tier, seed, profile, spec, interest, proof_files, n_quick=2200, n_
             # CodeEvaluationError, PropertyStatechartError) where the documented semantics gives a normal outcome
             clause = 'the call raised an undocumented exception (%s) where the documented semantics gives %s: the step did not take place' % (
                 case['out'][1], mcode)
+        if clause is None and (mask & MODEL_BITS) and not claimed_by_family(interest, mask, fdk, mcode, case):
+            # model and implementation differ on this input and NO property of the family recognises the difference as its own:
+            # the correspondence that carries the theorems to the code no longer checks
+            unattributed += 1
+            if unattributed <= 3:
+                rep = ifam.describe_case(case, charts)
+                rep.update(property=prop, broken='correspondence of the interpreter model with the implementation: they differ on this '
+                           'input (%s; implementation: %s, model: %s) and the difference is not recognised as the violation of a particular '
+                           'property' % ('+'.join(ifam.bits_names(mask & MODEL_BITS)), ifam.impl_outcome(case), mcode),
+                           differing_components=ifam.bits_names(mask), first_differing_evaluator_call=fdk, model_outcome=mcode)
+                v.violation(rep, tag='corr%d' % idx, no_input=True)
+                n_viol += 1
         if clause is None:
             other += 1 if m else 0
+            if m:
+                k = '+'.join(ifam.bits_names(mask)) + ' impl=%s model=%s' % (ifam.impl_outcome(case), mcode)
+                other_kinds[k] = other_kinds.get(k, 0) + 1
             continue
         clauses[clause] = clauses.get(clause, 0) + 1
         rep = ifam.describe_case(case, charts)
@@ -162,7 +179,8 @@ def run(prop, tier, seed, profile, spec, interest, proof_files, n_quick=2200, n_
         input_distribution=dist, mismatches_attributed_to_this_property=clauses,
         hypotheses_on_the_charts_that_were_run=dict(ifam.HYP, note='number of generated charts (counted once per case file) passing the decidable '
                                                    'forms of DESIGN.md section 2 (C02Proofs.wf_chart_b), of the tree hypotheses (C03Proofs.tree_okb) and of duplicate-free dictionaries (WFProofs.dict_okb): the hypotheses of the theorems hold of what was run'),
-        mismatches_not_about_this_property=other, samples=samples,
+        mismatches_not_about_this_property=other, mismatches_not_about_this_property_by_kind=other_kinds,
+        mismatches_claimed_by_no_property=unattributed, samples=samples,
         source_blobs=repo_blob_ids(['sismic/interpreter/default.py', 'sismic/code/python.py', 'sismic/utilities.py',
                                     'sismic/model/statechart.py', 'sismic/interpreter/listener.py']),
         proof_info={k: info.get(k) for k in ('build_ok', 'ok', 'closed', 'axioms', 'forbidden_tokens', 'note', 'coqchk')},
@@ -291,6 +309,42 @@ def interest_c08(mask, fdk, mcode, case):
     if mask & B.OLD and not (mask & B.OUTCOME):
         return '__old__ store differs (C08_old)'
     return None
+
+
+MODEL_BITS = (B.OUTCOME | B.SELECTED | B.EVENT | B.MICRO | B.CONFIG | B.QUEUES | B.MEMORY | B.TIMES | B.TRACE | B.CTX | B.LOGS
+              | B.BOUND | B.PROPS | B.OLD | B.INTERLEAVE)
+
+
+def claimed_by_family(own, mask, fdk, mcode, case):
+    """does the predicate of some OTHER property of the interpreter family recognise this difference?"""
+    for f in (interest_c01, interest_c02, interest_c03, interest_c04, interest_c05, interest_c06, interest_c08, interest_c10,
+              interest_c13, interest_c15):
+        if f is own:
+            continue
+        try:
+            if f(mask, fdk, mcode, case):
+                return True
+        except Exception:  # noqa
+            return True
+    return False
+
+
+def report_unattributed(prop, v, masks, cases, charts, limit=2):
+    """for the checks that evaluate their reference runs against the model on the side (C07, C18): a difference between model
+    and implementation that no property of the family recognises as its own breaks the correspondence the theorems rest on"""
+    n = 0
+    for idx in sorted(masks):
+        mask, fdk, mcode = ifam.decode(masks[idx])
+        if (mask & MODEL_BITS) and not claimed_by_family(None, mask, fdk, mcode, cases[idx]):
+            n += 1
+            if n <= limit:
+                rep = ifam.describe_case(cases[idx], charts)
+                rep.update(property=prop, broken='correspondence of the interpreter model with the implementation: they differ on this '
+                           'input (%s; implementation: %s, model: %s) and the difference is not recognised as the violation of a particular '
+                           'property' % ('+'.join(ifam.bits_names(mask & MODEL_BITS)), ifam.impl_outcome(cases[idx]), mcode),
+                           differing_components=ifam.bits_names(mask), first_differing_evaluator_call=fdk, model_outcome=mcode)
+                v.violation(rep, tag='corr%d' % idx, no_input=True)
+    return n
 
 
 class _NS:
